@@ -76,7 +76,9 @@ class Check:
             titles[f["id"]] = f["title"]
             path = os.path.join(VERIF, f["cases_file"])
             if os.path.exists(path):
-                for line in open(path):
+                import gzip
+                opener = (lambda p: gzip.open(p, "rt")) if path.endswith(".gz") else open
+                for line in opener(path):
                     line = line.strip()
                     if line and not line.startswith("#"):
                         known[line] = f["id"]
@@ -90,10 +92,18 @@ class Check:
             by_sig.setdefault(sig, set()).add(f"{cid}:{sig}")
         os.makedirs(os.path.join(VERIF, "known"), exist_ok=True)
         for sig, keys in sorted(by_sig.items()):
+            import gzip
             path = os.path.join(VERIF, "known", f"{self.prop}.{slug(sig)}.txt")
-            if merge and os.path.exists(path):
-                keys |= {l.strip() for l in open(path) if l.strip() and not l.startswith("#")}
-            with open(path, "w") as f:
+            for old in (path, path + ".gz"):
+                if os.path.exists(old):
+                    if merge:
+                        op = (lambda p: gzip.open(p, "rt")) if old.endswith(".gz") else open
+                        keys |= {l.strip() for l in op(old) if l.strip() and not l.startswith("#")}
+                    os.remove(old)
+            big = len(keys) > 20000
+            if big:
+                path += ".gz"
+            with (gzip.open(path, "wt") if big else open(path, "w")) as f:
                 f.write(f"# failing cases of {self.prop} with signature {sig} on the recorded tree (case-id:signature)\n")
                 for k in sorted(keys):
                     f.write(k + "\n")
